@@ -206,8 +206,8 @@ CASES = {"basis": case_basis, "history": case_history, "sequence": case_sequence
 
 def run(r) -> None:
     quick = r.tier == "quick"
-    s2 = range(2, 6) if quick else range(2, 8)
-    s3 = range(2, 4) if quick else range(2, 6)
+    s2 = range(2, 6) if quick else range(2, 10)
+    s3 = range(2, 4) if quick else range(2, 7)
     shapes = list(itertools.product(s2, s2)) + list(itertools.product(s3, s3, s3))
     shapes += [(2, 64), (64, 3), (33, 2, 5), (7, 6), (4, 3, 5)]
     if not quick:
@@ -220,7 +220,7 @@ def run(r) -> None:
                 cases.append(dict(shape=sh, dx=dx, dtype=dt))
     cases.sort(key=lambda c: -int(np.prod(c["shape"])))
     r.run_cases("basis", "basis", cases)
-    depth = 3 if quick else 4
+    depth = 3 if quick else 5
     hist = [dict(shape=sh, dx=DXS[(r.seed + len(sh)) % 3], dtype=dt, depth=depth) for sh in ((3, 4), (5, 2), (2, 3, 4), (3, 2, 2)) for dt in ("float64", "float32")]
     r.run_cases("history", "history", hist)
     seqs = [dict(shape=sh, order=list(o), dtype=dt) for sh in ((4, 6), (3, 4, 5), (4, 4, 4)) for o in itertools.permutations(range(3)) for dt in ("float64", "float32")]
